@@ -919,6 +919,12 @@ def c17_19(ctx):
 
 
 def c17_20(ctx):
+    if not hasattr(ctx, "_c17_20"):
+        ctx._c17_20 = _c17_20(ctx)
+    return ctx._c17_20
+
+
+def _c17_20(ctx):
     """target -> compact bits equals Bitcoin Core's arith_uint256::GetCompact for every size of target: target_to_bits looks at the target only
     through its byte length and the top bit of its first byte, so it is evaluated for every length 0..32 (0 = the target zero) × first byte
     {01, 7f, 80, ff} × two tails; the result is always 4 bytes (coefficient left-aligned for targets of fewer than three bytes).  Also
@@ -957,12 +963,14 @@ def c17_20(ctx):
     mod2, fn2 = rl.get(ctx, spec2)
     TW = 60 * 60 * 24 * 14
     m = 0
-    for prev in (bytes.fromhex("00000101"), bytes.fromhex("00000301"), bytes.fromhex("00ff0002"), bytes.fromhex("ffff7f03"), bytes.fromhex("12340004")):
-        for td in (0, TW // 4, TW // 2, TW, TW * 4, TW * 40):
+    MAXT = 0xFFFF * 256 ** (0x1D - 3)
+    for prev in (bytes.fromhex("00000101"), bytes.fromhex("00000301"), bytes.fromhex("00ff0002"), bytes.fromhex("ffff7f03"), bytes.fromhex("12340004"),
+                 bytes.fromhex("ffff001d"), bytes.fromhex("cb04041b"), bytes.fromhex("ffff7f1c"), bytes.fromhex("1b0c0a17")):
+        for td in (-5, 0, TW // 4 - 1, TW // 4, TW // 4 + 1, TW // 2, TW - 1, TW, TW + 1, TW * 4 - 1, TW * 4, TW * 4 + 1, TW * 40):
             m += 1
             e, c = prev[3], int.from_bytes(prev[:3], "little")
             target = c * 256 ** (e - 3) if e >= 3 else c >> 8 * (3 - e)
-            want = get_compact(target * min(max(td, TW // 4), TW * 4) // TW)
+            want = get_compact(min(target * min(max(td, TW // 4), TW * 4) // TW, MAXT))
             try:
                 r = Evaluator(ctx.repo).call(spec2, [prev, td])
             except Raised as x:
@@ -976,7 +984,7 @@ def c17_20(ctx):
                                    fn2, mod2, key="retarget-small"))
                 return out
     ctx.count("cells", m)
-    out.append(ctx.ok(spec2, "%d (tiny previous target, time differential) cells equal the consensus formula, the zero target included" % m, fn2, mod2, key="retarget-small"))
+    out.append(ctx.ok(spec2, "%d (previous target tiny .. the limit, time differential on both sides of the quarter / fourfold clamps) cells equal the consensus formula, the zero target and the limit included" % m, fn2, mod2, key="retarget-small"))
     return out
 
 
@@ -1031,7 +1039,28 @@ def c17_21(ctx):
 
 
 
+def _used_bits(total, match, width):
+    """number of flag bits an honest proof uses (the rest is padding to a byte)"""
+    height = (total - 1).bit_length()
+    cnt = [0]
+
+    def rec(h, pos):
+        cnt[0] += 1
+        if h and any(match[i] for i in range(pos << h, min((pos + 1) << h, total))):
+            rec(h - 1, pos * 2)
+            if pos * 2 + 1 < width(total, h - 1):
+                rec(h - 1, pos * 2 + 1)
+    rec(height, 0)
+    return cnt[0]
+
+
 def c17_22(ctx):
+    if not hasattr(ctx, "_c17_22"):
+        ctx._c17_22 = _c17_22(ctx)
+    return ctx._c17_22
+
+
+def _c17_22(ctx):
     """the partial Merkle tree walk, evaluated on honest BIP37 proofs built by the rule's own encoder (pairing hash a free constructor): every
     match subset of every tree with 1..6 leaves, and {one, first+last, alternate, all} matches for 7..13, 20, 21, 36 and 100 leaves -- trees
     whose odd levels duplicate their last node have MORE than 2*total-1 nodes, the dense proofs among them use every one.  populate_tree must
@@ -1104,11 +1133,32 @@ def c17_22(ctx):
             if tree.attrs.get("proved_txs") != want_ids:
                 return [ctx.bad(spec, "an honest BIP37 proof (%s) yields %d ids, not exactly the matched ones in order" % (label, len(tree.attrs.get("proved_txs") or [])), fn, mod,
                                 key="pmt-cells")]
+        # dishonest proofs: material the walk does not consume makes the proof invalid (CVE-2012-2459 family) -- an extra hash at the end, and a
+        # padding flag bit set to 1
+        for total, match in [(t, m_) for t, m_ in cases if t in (1, 2, 3, 5, 7, 12)][::3]:
+            leaves = [bytes([i & 255, i >> 8]) + bytes(30) for i in range(total)]
+            bits, hashes, root = build(leaves, match)
+            used = _used_bits(total, match, width)
+            variants = [("one hash more than the walk consumes", list(bits), list(hashes) + [bytes([0xEE]) * 32])]
+            if used < len(bits):
+                b2 = list(bits)
+                b2[-1] = 1
+                variants.append(("a padding flag bit set to 1", b2, list(hashes)))
+            for what, b_, h_ in variants:
+                n += 1
+                ev = Evaluator(ctx.repo, opaque=opaque, max_steps=4000000)
+                tree = Obj("merkleblock", "MerkleTree", {})
+                try:
+                    ev.call("merkleblock:MerkleTree.__init__", [total], self_obj=tree)
+                    ev.call(spec, [b_, h_], self_obj=tree)
+                    return [ctx.bad(spec, "a proof for %d leaves with %s is accepted: what the walk leaves over must make the proof invalid" % (total, what), fn, mod, key="pmt-cells")]
+                except Raised:
+                    pass
     except Undecided as u:
         return [ctx.err(spec, "partial Merkle tree walk not evaluable: %s" % u, fn, mod)]
     ctx.count("cells", n)
-    return [ctx.ok(spec, "%d honest proofs (all subsets for 1..6 leaves; sparse, alternate and dense for 7..13, 20, 21, 36, 100) rebuild the root and yield the matched ids" % n, fn, mod,
-                   key="pmt-cells")]
+    return [ctx.ok(spec, "%d proofs: the honest ones (all subsets for 1..6 leaves; sparse, alternate and dense for 7..13, 20, 21, 36, 100) rebuild the root and yield the matched ids; "
+                         "proofs with an unconsumed hash or a padding bit set are refused" % n, fn, mod, key="pmt-cells")]
 
 
 
@@ -1124,12 +1174,14 @@ OBLIGATIONS = [
     ("C17.14", "MEMO", c17_14),
     ("C17.1", "GUARD", c17_1),
     ("C17.2", "EXACT", c17_2),
-    ("C17.3", "GUARD", c17_3),
+    ("C17.3", "GUARD", rl.deferring(c17_3, c17_22, "merkleblock:MerkleTree.populate_tree", "decided by the partial-Merkle-tree cells (C17.22: honest proofs yield exactly the matched ids, proofs with "
+                                    "an unconsumed hash or a padding bit set are refused); the walk is not in the form this rule reads", 3)),
     ("C17.4", "GUARD", c17_4),
     ("C17.5", "LAYOUT", c17_5),
     ("C17.6", "RELATION", c17_6),
     ("C17.7", "EXACT/RANGE", c17_7),
-    ("C17.8", "RANGE output", c17_8),
+    ("C17.8", "RANGE output", rl.deferring(c17_8, c17_20, "helper:calculate_new_bits", "decided by the retarget cells (C17.20: previous targets up to the limit × time differentials on both sides of "
+                                           "the clamps equal the consensus formula); the retarget is not in the form the interval rule reads", 4)),
     ("C17.9", "GUARD per-iteration", c17_9),
     ("C17.10", "BITS", c17_10),
     ("C17.11", "RANGE partition", c17_11),
